@@ -17,8 +17,9 @@ namespace detail
 		char    _buffer[1];
 	};
 
+	// element types without a SIMD specialisation (double, sized integers, bool) use the generic implementation for aligned vectors too
 	template<int N, typename T, qualifier Q, int E0, int E1, int E2, int E3, bool UseSimd>
-	struct _swizzle_base1 : public _swizzle_base0<T, N>
+	struct _swizzle_base1 : public _swizzle_base1<N, T, Q, E0, E1, E2, E3, false>
 	{
 	};
 
